@@ -2177,3 +2177,11 @@ func init() {
 	reg("C10", ruleBigIntNarrowingIsGuarded)
 	reg("C13", ruleBigIntNarrowingIsGuarded)
 }
+
+func init() {
+	// more cross-registrations after the tenth round
+	reg("C09", ruleDecodeLoopLeavesOnError)
+	reg("C11", ruleCollectPackages, ruleContextLiteralsComplete)
+	reg("C12", ruleChdirRestored, ruleTemporaryCwdPathsAbsolute)
+	reg("C13", ruleOptionalFieldSymmetry)
+}
